@@ -65,7 +65,7 @@ Empty = EC.cls(".google.protobuf.Empty")
 GetOperationRequest = EC.cls(".google.longrunning.GetOperationRequest")
 
 RPCS = ["get_book", "create_book", "update_book", "delete_book", "tag_book", "move_book", "classify_book", "route_override", "stream_books",
-        "upload", "chat", "import_", "create_channel_", "no_sig", "ping", "check_operation", "mask", "list_books",
+        "upload", "chat", "import_", "create_channel_", "no_sig", "ping", "touch_book", "check_operation", "mask", "list_books",
         "write_book", "route_simple", "route_rename", "route_multi", "route_nested"]
 STREAMING_REPLY = {"stream_books", "chat"}
 
@@ -100,7 +100,7 @@ OPTS = dict(retry="RETRY", timeout=3.5, metadata=(("a", "b"),))
 
 # lift every method now (at import, outside CrossHair's tracing) and give it the recording gapic_v1 shim
 METHODS = ["get_book", "create_book", "update_book", "delete_book", "tag_book", "move_book", "classify_book", "route_override", "stream_books",
-           "upload", "chat", "import_", "create_channel", "no_sig", "ping", "check_operation", "mask", "list_books",
+           "upload", "chat", "import_", "create_channel", "no_sig", "ping", "touch_book", "check_operation", "mask", "list_books",
            "write_book", "route_simple", "route_rename", "route_multi", "route_nested"]
 for _w, _c in (("client", "LibraryClient"), ("async_client", "LibraryAsyncClient")):
     for _m in METHODS:
@@ -564,13 +564,15 @@ def flat_stream_books(req_kind: int, r_parent: Optional[int], k_parent: Optional
 # --------------------------------------------------------------------------- C03: dispatch without flattening
 def disp_simple(which_rpc: int, req_kind: int, sel: Optional[int]) -> bool:
     """
-    pre: 0 <= which_rpc <= 2 and 0 <= req_kind <= 2 and ok_sel(sel, 3)
+    pre: 0 <= which_rpc <= 3 and 0 <= req_kind <= 2 and ok_sel(sel, 3)
     pre: req_kind != 0 or sel is None
     post: _
     """
     meth, rpc, cls, field, header = [("no_sig", "no_sig", M["GetBookRequest"], "name", "name"),
                                      ("create_channel", "create_channel_", M["ImportRequest"], "source", None),
-                                     ("ping", "ping", Empty, None, None)][which_rpc]
+                                     ("ping", "ping", Empty, None, None),
+                                     # returns the API's OWN message named Empty: the reply must still reach the caller
+                                     ("touch_book", "touch_book", M["GetBookRequest"], "name", "name")][which_rpc]
     fields = {}
     if sel is not None and field is not None:
         fields[field] = NAMES[sel]
